@@ -165,6 +165,59 @@ At(t, path) == IF path = <<>> THEN t
                ELSE IF Head(path) \in DOMAIN t.c THEN At(t.c[Head(path)], Tail(path))
                ELSE Leaf("unresolved", "")
 
+
+(***************************************************************************)
+(* NTok(t): number of tokens the renderer prints for t (harness/src/       *)
+(* render.rs).  Used by generators to enumerate comment slots; the harness  *)
+(* reports its own count in every Render event and the trace specification  *)
+(* rejects a disagreement as a tool error.                                  *)
+(* Restrictions: tables with default separators, simple function names,     *)
+(* one-word types.                                                          *)
+(***************************************************************************)
+RECURSIVE NTok(_), SumTok(_, _)
+SumTok(cs, i) == IF i > Len(cs) THEN 0 ELSE NTok(cs[i]) + SumTok(cs, i + 1)
+Commas(n) == IF n > 1 THEN n - 1 ELSE 0
+ListTok(cs) == SumTok(cs, 1) + Commas(Len(cs))
+TypeTok(cs) == IF cs = <<>> THEN 0 ELSE 2 * Len(cs)          \* `: T`  (attrib `<const>` is 3, see lname)
+FuncBodyTok(c) == 2 + SumTok(c[1].c, 1) + Commas(Len(c[1].c)) + TypeTok(c[2].c) + NTok(c[3]) + 1
+NTok(t) ==
+  CASE t.k \in {"name", "num", "str", "sym", "vararg", "raw", "break", "continue"} -> 1
+    [] t.k = "bin" -> NTok(t.c[1]) + 1 + NTok(t.c[2])
+    [] t.k = "un" -> 1 + NTok(t.c[1])
+    [] t.k = "par" -> 2 + NTok(t.c[1])
+    [] t.k \in {"chain", "block", "callstmt", "f_pos"} -> SumTok(t.c, 1)
+    [] t.k = "dot" -> 2
+    [] t.k = "idx" -> 2 + NTok(t.c[1])
+    [] t.k = "call" -> IF t.a = "paren" THEN 2 + ListTok(t.c) ELSE NTok(t.c[1])
+    [] t.k = "mcall" -> 2 + NTok(t.c[1])
+    [] t.k = "table" -> 2 + ListTok(t.c)
+    [] t.k = "f_name" -> 2 + NTok(t.c[1])
+    [] t.k = "f_expr" -> 3 + NTok(t.c[1]) + NTok(t.c[2])
+    [] t.k = "func" -> 1 + FuncBodyTok(t.c)
+    [] t.k = "ifexp" -> 3 + SumTok(t.c, 1) + (Len(t.c) - 3)
+    [] t.k = "cast" -> NTok(t.c[1]) + 2
+    [] t.k = "semi" -> NTok(t.c[1]) + 1
+    [] t.k \in {"pname", "lname"} -> 1 + SumTok(t.c, 1)
+    [] t.k = "type" -> 2
+    [] t.k = "attrib" -> 3
+    [] t.k = "pvararg" -> 1 + SumTok(t.c, 1)
+    [] t.k = "local" -> 1 + ListTok(t.c[1].c) + (IF t.c[2].c = <<>> THEN 0 ELSE 1 + ListTok(t.c[2].c))
+    [] t.k = "assign" -> ListTok(t.c[1].c) + 1 + ListTok(t.c[2].c)
+    [] t.k = "compound" -> NTok(t.c[1]) + 1 + NTok(t.c[2])
+    [] t.k = "do" -> 2 + NTok(t.c[1])
+    [] t.k = "while" -> 3 + NTok(t.c[1]) + NTok(t.c[2])
+    [] t.k = "repeat" -> 2 + NTok(t.c[1]) + NTok(t.c[2])
+    [] t.k = "if" -> LET n == IF t.a = "else" THEN Len(t.c) - 1 ELSE Len(t.c) IN
+                     3 + SumTok(t.c, 1) + (n - 2) + (IF t.a = "else" THEN 1 ELSE 0)
+    [] t.k = "numfor" -> 5 + SumTok(t.c, 1) + (IF Len(t.c) = 5 THEN 1 ELSE 0)
+    [] t.k = "genfor" -> 4 + ListTok(t.c[1].c) + ListTok(t.c[2].c) + NTok(t.c[3])
+    [] t.k = "function" -> 2 + FuncBodyTok(t.c)
+    [] t.k = "localfunction" -> 3 + FuncBodyTok(t.c)
+    [] t.k = "return" -> 1 + ListTok(t.c[1].c)
+    [] t.k = "goto" -> 2
+    [] t.k = "label" -> 3
+    [] OTHER -> 1
+
 (* ---------- lexical hazards between adjacent printed tokens ---------- *)
 LexHazard(a, b) ==
   \/ a = "-" /\ b = "-"                     \* `--` starts a comment
